@@ -76,6 +76,51 @@ fn main() {
         "c11-digest" => {
             println!("{}", props::c11::matrix_digest());
         }
+        "corpus" => {
+            // verif corpus <parse|render> <dir> <n>: seed corpus for the libFuzzer targets
+            let (target, dir, n) = (args[2].as_str(), args[3].as_str(), args[4].parse::<u64>().unwrap_or(200));
+            std::fs::create_dir_all(dir).expect("corpus dir");
+            let strat = props::c01::wellformed();
+            for i in 0..n {
+                let src = engine::sample_strategy(&strat, i + 1);
+                let mut bytes: Vec<u8> = Vec::new();
+                if target == "render" {
+                    bytes.extend_from_slice(&(i.wrapping_mul(0x9E37_79B9_7F4A_7C15)).to_le_bytes());
+                }
+                bytes.extend_from_slice(src.as_bytes());
+                if bytes.len() <= 2048 {
+                    std::fs::write(format!("{dir}/seed{i:04}"), bytes).expect("write seed");
+                }
+            }
+            for (i, t) in props::c01::TAGS.iter().enumerate() {
+                let mut bytes: Vec<u8> = if target == "render" { vec![i as u8; 8] } else { vec![] };
+                bytes.extend_from_slice(t.as_bytes());
+                std::fs::write(format!("{dir}/tag{i:03}"), bytes).expect("write seed");
+            }
+        }
+        "fuzz-dict" => {
+            for t in props::c01::TOKENS.iter().chain(props::c01::TAGS.iter()) {
+                if t.is_ascii() && !t.contains(char::is_control) && !t.contains('"') && !t.contains('\\') && !t.trim().is_empty() {
+                    println!("\"{}\"", t);
+                }
+            }
+        }
+        "fuzz-case" => {
+            // verif fuzz-case <parse|render> <artifact>: turn a libFuzzer artifact into a replay file body
+            let bytes = std::fs::read(&args[3]).expect("read artifact");
+            let j = if args[2] == "parse" {
+                match std::str::from_utf8(&bytes) {
+                    Ok(s) => serde_json::json!({"property": "C01", "sub": "soup", "case": {"src": s}}),
+                    Err(_) => serde_json::json!(null),
+                }
+            } else {
+                match props::c02::decode_fuzz_input(&bytes) {
+                    Some(p) => serde_json::json!({"property": "C02", "sub": "templates", "case": p}),
+                    None => serde_json::json!(null),
+                }
+            };
+            println!("{}", serde_json::to_string_pretty(&j).unwrap());
+        }
         "list" => {
             for (id, _) in props::ALL {
                 println!("{id}");
